@@ -181,5 +181,9 @@ func (s *SigBlob) VerifyPages(r io.Reader) error {
 		}
 		remaining -= int64(len(page))
 	}
+	if remaining > 0 {
+		// bytes below the signed code limit that no slot vouches for
+		return errors.New("not enough hash slots to cover indicated size")
+	}
 	return nil
 }
